@@ -129,6 +129,7 @@ func (root *Root) getObjType(gqlType string) (obj *Object, input *Input, err err
 
 func (root *Root) assureType(sample interface{}, obj *Object) error {
 	meta := reflect.TypeOf(sample)
+	verifYield("assureType")
 	obj.mu.Lock()
 	defer obj.mu.Unlock()
 	if obj.meta != nil && obj.meta != meta {
@@ -197,6 +198,7 @@ func (root *Root) regField(obj *Object, fd *FieldDef, goField string, args ...st
 	obj.mu.Lock()
 	meta := obj.meta
 	obj.mu.Unlock()
+	verifYield("regField")
 	if meta.Kind() == reflect.Ptr {
 		meta = meta.Elem()
 	}
@@ -1081,6 +1083,7 @@ func (root *Root) Resolve(field *Field, args map[string]interface{}) (result int
 
 func (root *Root) subscribe(sub *Subscription) {
 	sub.prep(root)
+	verifYield("subscribe")
 	root.subLock.Lock()
 	root.subscriptions = append(root.subscriptions, sub)
 	root.subLock.Unlock()
@@ -1088,6 +1091,7 @@ func (root *Root) subscribe(sub *Subscription) {
 
 // Unsubscribe from an event stream.
 func (root *Root) Unsubscribe(id string) (cnt int) {
+	verifYield("unsubscribe")
 	root.subLock.Lock()
 	for i := len(root.subscriptions) - 1; 0 <= i; i-- {
 		s := root.subscriptions[i]
@@ -1109,6 +1113,7 @@ func (root *Root) AddEvent(id string, event interface{}) (cnt int, err error) {
 	vars := map[string]interface{}{}
 	var ea []error
 	var failed []*Subscription
+	verifYield("deliver")
 	root.subLock.Lock()
 	for _, s := range root.subscriptions {
 		if s.sub.Match(id) {
@@ -1125,6 +1130,7 @@ func (root *Root) AddEvent(id string, event interface{}) (cnt int, err error) {
 	if 0 < len(ea) {
 		err = Errors(ea)
 	}
+	verifYield("reap")
 	root.subLock.Lock()
 	for _, f := range failed {
 		for i := len(root.subscriptions) - 1; 0 <= i; i-- {
